@@ -28,7 +28,7 @@ def gen_case(rng):
 def build(case):
     rng = random.Random(case['site_seed'])
     site = sitegen.generate(rng, host='a.test', n_pages=rng.choice([4, 6, 9]), redirects=False,
-                            extra_hosts=['b.test'] if case['scenario'] in ('links',) else ())
+                            extra_hosts=['b.test'] if case['scenario'] in ('links',) else (), frames=True)
     html = [p for p in site.pages.values() if p.kind == 'html' and sitegen.split_url(p.url)[1] == 'a.test']
     sc = case['scenario']
     other = sitegen.Site('b.test')
@@ -195,6 +195,18 @@ def run_case(case, part):
                 {'url': url, 'rules': rules, 'source': sources[:1]}, replay)
         else:
             part.count('crawl_redirect_hops_in_scope')
+    # the link records the filters were evaluated with must describe the real discovery (depth, inline depth, parent,
+    # root): a record that claims an embedding where the page merely links (or a smaller depth) defeats the rules
+    for url, row in rowmap.items():
+        if url == site.start:
+            continue
+        problems = sitegen.row_metadata_problems(url, row, rowmap, all_pages, site.start)
+        if problems:
+            part.violation('row-metadata-wrong/' + '+'.join(problems), {'row': row, 'start': site.start}, replay)
+        else:
+            part.count('crawl_row_metadata_consistent')
+    if 'iframe' in site.features:
+        part.count('crawls_with_framed_documents')
     part.nontrivial_case('crawl/{}/{}'.format(sc, common.jhash(case['opts'])))
 
 
